@@ -10,6 +10,7 @@ use std::panic;
 
 mod c04;
 mod ck;
+mod explorer;
 mod graphs;
 mod c05;
 mod c06;
@@ -91,7 +92,7 @@ fn main() {
         "C16" => c16::run(&mut ctx),
         "C17" => c17::run(&mut ctx),
         "C18" => c18::run(&mut ctx),
-        "C19" => c19::run(&mut ctx),
+        "C19" => { c19::run(&mut ctx); ck::wide_frontier(&mut ctx, "c19"); explorer::run(&mut ctx); }
         "C20" => c20::run(&mut ctx),
         other => {
             eprintln!("no oracle for {}", other);
